@@ -1,1 +1,368 @@
-"""(rules registered here)"""
+"""Client rules (C12, C13): S-COMPLETE, P-MATCH, P-DISCARD, P-GATEWAY, P-BUNDLE, T-PATHSYNTAX."""
+import ast
+
+from .core import ( rule, Result, AnalysisError, dotted, call_name, is_call_to, names_in, attrs_in, walk_no_nested,
+                    norm_text, dotted_in, stmt_of, pmatch, pfind, txt )
+from .fold import try_fold
+from .cfg import CFG
+
+CLIENT = 'server/enip/client.py'
+GETATTR = 'server/enip/get_attribute.py'
+POLL = 'server/enip/poll.py'
+DEVICE = 'server/enip/device.py'
+
+
+def _counter_feeds( fn ):
+    """names incremented ( += 1 ) in fn (plain names or name[0] cells) -> list of AugAssign nodes"""
+    out = {}
+    for s in ast.walk( fn ):
+        if isinstance( s, ast.AugAssign ) and isinstance( s.op, ast.Add ) and try_fold( s.value ) == 1:
+            t = s.target
+            name = t.id if isinstance( t, ast.Name ) else ( t.value.id if isinstance( t, ast.Subscript ) and isinstance( t.value, ast.Name ) else None )
+            if name:
+                out.setdefault( name, [] ).append( s )
+    return out
+
+
+@rule( 'S-COMPLETE', props=( 'C13', 'C12' ), floor=2 )
+def s_complete( ctx ):
+    """sibling cross-check: every harvesting driver operate() can return checks, before normal completion, that #harvested == #issued"""
+    res = Result( 'S-COMPLETE' )
+    src = ctx.src( CLIENT )
+    op = src.get( 'connector.operate' )
+    drivers = []
+    for s in ast.walk( op ):
+        if isinstance( s, ast.Assign ) and dotted( s.targets[0] ) == 'harvested' and isinstance( s.value, ast.Call ) \
+           and isinstance( s.value.func, ast.Attribute ) and dotted( s.value.func.value ) == 'self' and s.value.func.attr not in ( 'validate', ):
+            drivers.append( s.value.func.attr )
+    if len( drivers ) < 2:
+        raise AnalysisError( 'connector.operate: harvesting drivers not found (%s)' % drivers )
+    for d in drivers:
+        fn = src.get( 'connector.' + d )
+        feeds = _counter_feeds( fn )
+        # a raising comparison (assert a == b / if a != b: raise) of two counters, one fed where requests are issued, one where results are harvested
+        checks = []
+        for a in ast.walk( fn ):
+            test = None
+            if isinstance( a, ast.Assert ):
+                test = a.test
+            elif isinstance( a, ast.If ) and any( isinstance( b, ast.Raise ) for b in a.body ):
+                test = a.test
+            if isinstance( test, ast.Compare ) and len( test.ops ) == 1 and isinstance( test.ops[0], ( ast.Eq, ast.NotEq, ast.GtE, ast.LtE, ast.Lt, ast.Gt )):
+                l, r = test.left, test.comparators[0]
+                ln = l.id if isinstance( l, ast.Name ) else ( l.value.id if isinstance( l, ast.Subscript ) and isinstance( l.value, ast.Name ) else None )
+                rn = r.id if isinstance( r, ast.Name ) else ( r.value.id if isinstance( r, ast.Subscript ) and isinstance( r.value, ast.Name ) else None )
+                if ln in feeds and rn in feeds and ln != rn:
+                    checks.append(( a, ln, rn ))
+        good = None
+        for a, ln, rn in checks:
+            # one counter is incremented next to the issue stream (a next( issuer ) / for over self.issue), the other next to a harvested result (yield)
+            def near_issue( nodes ):
+                for inc in nodes:
+                    blk = src.parent.get( inc )
+                    sib = list( ast.walk( blk )) if blk is not None else []
+                    if any( is_call_to( c, 'next' ) and c.args and 'issue' in txt( c.args[0] ) for c in sib if isinstance( c, ast.Call )):
+                        return True
+                    f = src.enclosing( inc, ( ast.For, ))
+                    if f is not None and ( 'issue' in txt( f.iter )):
+                        return True
+                return False
+            def near_harvest( nodes ):
+                for inc in nodes:
+                    blk = src.parent.get( inc )
+                    sib = list( ast.walk( blk )) if blk is not None else []
+                    if any( isinstance( c, ast.Yield ) for c in sib ) and (
+                            any( is_call_to( c, 'next' ) and c.args and 'harvest' in txt( c.args[0] ) for c in sib if isinstance( c, ast.Call ))
+                            or ( isinstance( blk, ast.For ) and 'harvest' in txt( blk.iter ))):
+                        return True
+                return False
+            if ( near_issue( feeds[ln] ) and near_harvest( feeds[rn] )) or ( near_issue( feeds[rn] ) and near_harvest( feeds[ln] )):
+                # the check must be on the normal-completion path: not inside the loop body
+                if src.enclosing( a, ( ast.For, ast.While )) is None:
+                    good = a
+        if good is not None:
+            res.ok( src, good, '%s: completeness check `%s` after the harvest loop' % ( d, norm_text( good.test )))
+        else:
+            res.bad( src, fn, 'connector.%s ends without comparing the number of results harvested with the number of requests issued' % d,
+                     'when the connection reaches EOF (or times out) between reply frames the result stream ends silently with fewer results than operations'
+                     + ( ' (its sibling does check)' if len( drivers ) > 1 else '' ))
+    return res
+
+
+@rule( 'P-MATCH', props=( 'C13', 'C06' ), floor=2 )
+def p_match( ctx ):
+    """harvest: every yielded result is dominated by an assert that the reply context equals the request context and reply.service == request.service | 0x80"""
+    res = Result( 'P-MATCH' )
+    src = ctx.src( CLIENT )
+    fn = src.get( 'connector.harvest' )
+    cfg = CFG( fn )
+    ylds = [ n for n in cfg.nodes if n.kind == 'stmt' and n.stmt is not None and any( isinstance( y, ast.Yield ) for y in ast.walk( n.stmt )) ]
+    if not ylds:
+        raise AnalysisError( 'connector.harvest yields nothing' )
+    ctx_ok = svc_ok = None
+    for n in cfg.nodes:
+        if n.kind == 'stmt' and isinstance( n.stmt, ast.Assert ):
+            conj = n.stmt.test.values if isinstance( n.stmt.test, ast.BoolOp ) and isinstance( n.stmt.test.op, ast.And ) else [ n.stmt.test ]
+            for c in conj:
+                if pmatch( c, '_a == _b' ) and 'ctx' in txt( c ) and len( { x for x in names_in( c ) } ) == 2:
+                    ctx_ok = n
+                m = pmatch( c, '_r.service == _q.service | 128' ) or pmatch( c, '_q.service | 128 == _r.service' )
+                if m:
+                    svc_ok = n
+    for y in ylds:
+        if ctx_ok is not None and cfg.must_pass( cfg.entry, y, [ ctx_ok ], correlated=False ):
+            res.ok( src, y.stmt, 'yield dominated by the sender-context equality assert' )
+        else:
+            res.bad( src, y.stmt, y.stmt, 'a result can be yielded without checking that the reply\'s sender context is the request\'s' )
+        if svc_ok is not None and cfg.must_pass( cfg.entry, y, [ svc_ok ], correlated=False ):
+            res.ok( src, y.stmt, 'yield dominated by reply.service == request.service | 0x80' )
+        else:
+            res.bad( src, y.stmt, y.stmt, 'a result can be yielded without checking that the reply\'s service code answers the request\'s (e.g. a bundle-level error reply)' )
+    # lazy zip of issued with collected: pairs i-th request with i-th reply
+    lz = [ f for f in ast.walk( fn ) if isinstance( f, ast.For ) and is_call_to( f.iter, 'zip' ) and len( f.iter.args ) == 2 ]
+    if lz and dotted( lz[0].iter.args[0] ) == 'issued' and is_call_to( lz[0].iter.args[1], 'self.collect' ):
+        res.ok( src, lz[0], 'requests and collected replies are paired positionally by a lazy zip' )
+    else:
+        res.bad( src, fn, 'harvest pairing', 'issued requests must be paired in order with collected replies' )
+    # the yielded tuple carries the request's own index/description and the paired reply
+    return res
+
+
+@rule( 'P-DISCARD', props=( 'C13', ), floor=4 )
+def p_discard( ctx ):
+    """failure kinds end the stream: collect returns on timeout/EOF, enip_replies raises on non-zero encapsulation/send/bundle status, await_response distinguishes timeout (None) from EOF ({})"""
+    res = Result( 'P-DISCARD' )
+    src = ctx.src( CLIENT )
+    co = src.get( 'connector.collect' )
+    ifs = [ i for i in ast.walk( co ) if isinstance( i, ast.If ) and pmatch( i.test, 'not replies' ) and any( isinstance( b, ast.Return ) for b in i.body ) ]
+    if ifs:
+        res.ok( src, ifs[0], 'collect: ends the reply stream when enip_replies reports timeout (None) or EOF ({})' )
+    else:
+        res.bad( src, co, 'connector.collect', 'on timeout or EOF the reply stream must end (no reply can be matched reliably afterwards)' )
+    er = src.get( 'enip_replies' )
+    want = { 'ENIPStatusError': 'response.enip.status != 0', 'SENDStatusError': 'send_status', 'MSVCStatusError': 'msvc_status' }
+    for exc, cond in want.items():
+        hit = False
+        for i in ast.walk( er ):
+            if isinstance( i, ast.If ) and any( isinstance( b, ast.Raise ) and exc in txt( b ) for b in i.body ):
+                if pmatch( i.test, cond ):
+                    hit = True
+        if hit:
+            res.ok( src, er, 'enip_replies raises %s when %s' % ( exc, cond ))
+        else:
+            res.bad( src, er, 'enip_replies / %s' % exc, 'a non-zero %s status must raise: the session is de-synchronised' % exc )
+    if [ i for i in ast.walk( er ) if isinstance( i, ast.If ) and pmatch( i.test, 'response is None' ) and any( pmatch( b, 'return None' ) for b in i.body ) ]:
+        res.ok( src, er, 'enip_replies: None (timeout) -> None' )
+    else:
+        res.bad( src, er, 'enip_replies timeout', 'a timeout (None response) must be reported as None' )
+    asr = [ a for a in ast.walk( er ) if isinstance( a, ast.Assert ) and pmatch( a.test, 'replies' ) ]
+    if asr:
+        res.ok( src, asr[0], 'enip_replies asserts that a reply list was found' )
+    else:
+        res.bad( src, er, 'enip_replies', 'an unrecognised response must raise, not yield an empty reply list' )
+    aw = src.get( 'await_response' )
+    if pfind( aw, 'response = dotdict()' ) and [ f for f in ast.walk( aw ) if isinstance( f, ast.For ) and dotted( f.iter ) == 'cli' ]:
+        res.ok( src, aw, 'await_response: EOF (StopIteration at once) -> {}, timeout -> None' )
+    else:
+        res.bad( src, aw, 'await_response', 'EOF must be reported as an empty response, timeout as None' )
+    return res
+
+
+def proxy_generator_methods( ctx ):
+    src = ctx.src( GETATTR )
+    out = []
+    cd = src.get( 'proxy' )
+    for m in cd.body:
+        if isinstance( m, ast.FunctionDef ) and any( isinstance( y, ( ast.Yield, ast.YieldFrom )) for y in walk_no_nested( m )):
+            out.append( m.name )
+    return out
+
+
+@rule( 'P-GATEWAY', props=( 'C13', ), floor=5 )
+def p_gateway( ctx ):
+    """proxy: __exit__ discards the gateway on any exception, close_gateway closes and clears it, open_gateway re-creates it under the lock; generator reification sites are protected"""
+    res = Result( 'P-GATEWAY' )
+    src = ctx.src( GETATTR )
+    ex = src.get( 'proxy.__exit__' )
+    ifs = [ i for i in ast.walk( ex ) if isinstance( i, ast.If ) and pmatch( i.test, 'typ is not None' ) and pfind( i, 'self.close_gateway( exc=val )' ) ]
+    if ifs:
+        res.ok( src, ifs[0], 'proxy.__exit__: any exception -> close_gateway' )
+    else:
+        res.bad( src, ex, 'proxy.__exit__', 'leaving the proxy with an exception must discard the gateway connection' )
+    rets = [ r for r in ast.walk( ex ) if isinstance( r, ast.Return ) ]
+    if all( try_fold( r.value ) in ( False, None ) for r in rets ):
+        res.ok( src, ex, 'proxy.__exit__ does not suppress the exception' )
+    else:
+        res.bad( src, ex, 'proxy.__exit__ return', 'the failure must propagate to the caller' )
+    cg = src.get( 'proxy.close_gateway' )
+    if pfind( cg, 'self.gateway.close()' ) and pfind( cg, 'self.gateway = None' ):
+        res.ok( src, cg, 'close_gateway: close() and gateway = None' )
+    else:
+        res.bad( src, cg, 'proxy.close_gateway', 'the connection must be closed and forgotten (gateway = None) so that the next use reconnects' )
+    og = src.get( 'proxy.open_gateway' )
+    w = [ x for x in ast.walk( og ) if isinstance( x, ast.With ) and any( txt( it.context_expr ) == 'self.gateway_lock' for it in x.items ) ]
+    cr = [ i for i in ast.walk( og ) if isinstance( i, ast.If ) and pmatch( i.test, 'self.gateway is None' ) and pfind( i, 'self.gateway = self.gateway_class( **_k )' ) or
+           ( isinstance( i, ast.If ) and pmatch( i.test, 'self.gateway is None' ) and any( isinstance( s, ast.Assign ) and dotted( s.targets[0] ) == 'self.gateway' for s in ast.walk( i ))) ]
+    if w and cr and any( c in ast.walk( w[0] ) for c in cr ):
+        res.ok( src, og, 'open_gateway: created when None, under gateway_lock' )
+    else:
+        res.bad( src, og, 'proxy.open_gateway', 'a missing gateway must be (re)created, under gateway_lock' )
+    en = src.get( 'proxy.__enter__' )
+    if pfind( en, 'self.open_gateway()' ):
+        res.ok( src, en, 'proxy.__enter__ opens the gateway' )
+    else:
+        res.bad( src, en, 'proxy.__enter__', 'entering the proxy must ensure the gateway is open' )
+    # reification sites of proxy generators outside get_attribute.py
+    gens = set( proxy_generator_methods( ctx ))
+    files = [ POLL ]
+    if ctx.tier == 'thorough':
+        files = [ f for f in ctx.model.all_python() if f.startswith( 'server/enip/' ) and f not in ( GETATTR, ) ]
+    n_sites = 0
+    for rel in files:
+        if not ctx.model.exists( rel ):
+            continue
+        s = ctx.src( rel )
+        for c in ast.walk( s.tree ):
+            # list( via.read( ... )), for x in via.read( ... ), list( execute( via ... )) where execute yields from via.read
+            target = None
+            if isinstance( c, ast.Call ) and isinstance( c.func, ast.Attribute ) and c.func.attr in gens and isinstance( c.func.value, ast.Name ) \
+               and c.func.value.id not in ( 'self', 'cls', 'client', 'connection', 'conn' ):
+                target = c
+            if target is None:
+                continue
+            fn = s.enclosing( target, ( ast.FunctionDef, ))
+            if fn is None:
+                continue
+            recv = target.func.value.id
+            # where is this generator consumed?  (a) in this function: protected if lexically inside `with <recv>:` or a try whose handler closes the gateway;
+            # (b) returned/yielded from a generator helper: then check the helper's call sites in the same file
+            def protected( node ):
+                for a in s.ancestors( node ):
+                    if isinstance( a, ast.With ) and any( dotted( it.context_expr ) == recv for it in a.items ):
+                        return 'with %s' % recv
+                    if isinstance( a, ast.Try ) and any( pfind( h, '%s.close_gateway( **_k )' % recv ) or pfind( h, '%s.close_gateway()' % recv )
+                                                         or pfind( h, '%s.close_gateway( exc=_e )' % recv ) for h in a.handlers ):
+                        return 'try/except close_gateway'
+                    if isinstance( a, ( ast.FunctionDef, )):
+                        break
+                return None
+            is_gen_helper = any( isinstance( y, ( ast.Yield, ast.YieldFrom )) for y in walk_no_nested( fn ))
+            if is_gen_helper:
+                # call sites of the helper
+                for c2 in ast.walk( s.tree ):
+                    if isinstance( c2, ast.Call ) and call_name( c2 ) == fn.name and c2.args and isinstance( c2.args[0], ast.Name ):
+                        recv2 = c2.args[0].id
+                        n_sites += 1
+                        recv_saved = recv; recv = recv2
+                        p = protected( c2 )
+                        recv = recv_saved
+                        if p:
+                            res.ok( s, c2, 'generator %s( %s ... ) consumed under %s' % ( fn.name, recv2, p ))
+                        else:
+                            res.bad( s, c2, c2, 'a proxy I/O generator is consumed outside `with <proxy>:`: an I/O failure leaves the broken connection in place for the next use' )
+            else:
+                n_sites += 1
+                p = protected( target )
+                if p:
+                    res.ok( s, target, '%s.%s( ... ) consumed under %s' % ( recv, target.func.attr, p ))
+                else:
+                    res.bad( s, target, target, 'a proxy I/O generator is consumed outside `with <proxy>:`: an I/O failure leaves the broken connection in place for the next use' )
+    if n_sites < 1:
+        raise AnalysisError( 'P-GATEWAY: no reification site of a proxy generator found' )
+    return res
+
+
+@rule( 'P-BUNDLE', props=( 'C12', ), floor=4 )
+def p_bundle( ctx ):
+    """connector.issue: a bundle is extended only while route_path and send_path equal the bundle's; all members share the bundle's index/context; index advances once per wire request"""
+    res = Result( 'P-BUNDLE' )
+    src = ctx.src( CLIENT )
+    fn = src.get( 'connector.issue' )
+    keep = [ i for i in ast.walk( fn ) if isinstance( i, ast.If ) and isinstance( i.test, ast.BoolOp ) and isinstance( i.test.op, ast.And )
+             and 'route_path' in txt( i.test ) ]
+    if len( keep ) != 1:
+        res.bad( src, fn, 'connector.issue bundling condition', 'the keep-collecting test must conjoin the size test with route_path and send_path equality' )
+        return res
+    t = keep[0].test
+    conj = [ txt( v ) for v in t.values ]
+    for p in ( 'route_path', 'send_path' ):
+        pat = "requests_paths.setdefault('%s',op.get('%s'))==op.get('%s')" % ( p, p, p )
+        alt = "op.get('%s')==requests_paths.setdefault('%s',op.get('%s'))" % ( p, p, p )
+        if pat in conj or alt in conj:
+            res.ok( src, keep[0], 'bundle extended only when %s equals the bundle\'s' % p )
+        else:
+            res.bad( src, keep[0], t, 'operations with a different %s must not be merged into one Multiple Service Packet' % p )
+    size = [ v for v in t.values if 'multiple' in names_in( v ) ]
+    if size and pmatch( size[0], 'not requests or max( reqsiz + reqest, rpysiz + rpyest ) < multiple' ):
+        res.ok( src, keep[0], 'bundle extended only while estimated request and reply sizes stay below the limit (a first member always fits)' )
+    elif size:
+        res.note( 'size conjunct: ' + norm_text( size[0] ))
+        res.ok( src, keep[0], 'size conjunct present: ' + norm_text( size[0] )[:80], nontrivial=False )
+    else:
+        res.bad( src, keep[0], t, 'the bundle size limit is not tested' )
+    # index accounting: each `index += 1` follows the yield(s) of one wire request
+    cfg = CFG( fn )
+    incs = [ n for n in cfg.nodes if n.kind == 'stmt' and isinstance( n.stmt, ast.AugAssign ) and dotted( n.stmt.target ) == 'index' ]
+    loop = [ f for f in fn.body if isinstance( f, ast.For ) and dotted( f.iter ) == 'operations' ]
+    if len( loop ) != 1:
+        raise AnalysisError( 'connector.issue: operations loop not found' )
+    h = cfg.node_of( loop[0] )
+    first = [ m for m, l in cfg.succ[h] if l == 'true' ]
+    backs = [ p for p, l in cfg.pred[h] if l in ( 'back', 'continue' ) ]
+    sends = [ n for n in cfg.nodes if n.kind == 'stmt' and n.stmt is not None and is_call_to( getattr( n.stmt, 'value', None ), 'self.multiple' ) ]
+    cnt = cfg.effect_counts( first[0], incs, backs, cut_back=True, skip_labels=( 'exc', ))
+    if cnt and all( hi <= 1 for lo, hi in cnt.values() ):
+        res.ok( src, loop[0], 'index advances at most once per operation' )
+    else:
+        res.bad( src, loop[0], 'index increments per iteration %s' % sorted( set( cnt.values() )), 'index must advance exactly once per wire request' )
+    # every flush (self.multiple) inside the loop is followed by index += 1 before the next iteration; single sends likewise
+    for sn in [ n for n in sends if n.stmt is not None and src.enclosing( n.stmt, ( ast.For, )) is loop[0] ]:
+        if all( cfg.must_pass( sn, b, incs, correlated=False ) for b in backs ):
+            res.ok( src, sn.stmt, 'a flushed bundle is followed by index += 1' )
+        else:
+            res.bad( src, sn.stmt, sn.stmt, 'after sending a bundle the index must advance before the next request is issued' )
+    # the context used for the bundle and yielded with each member is the loop's sender_context = index_to_sender_context( index )
+    if pfind( fn, 'sender_context = self.index_to_sender_context( index )' ):
+        res.ok( src, fn, 'sender_context is always derived from index' )
+    else:
+        res.bad( src, fn, 'sender_context', 'the sender context must be derived from the request index' )
+    for y in [ y for y in ast.walk( fn ) if isinstance( y, ast.Yield ) ]:
+        if isinstance( y.value, ast.Tuple ) and [ dotted( e ) for e in y.value.elts[:2] ] == [ 'index', 'sender_context' ]:
+            res.ok( src, y, 'yields ( index, sender_context, ... )', nontrivial=False )
+        else:
+            res.bad( src, y, y, 'every issued record must carry the index and sender context of its wire request' )
+    return res
+
+
+@rule( 'T-PATHSYNTAX', props=( 'C12', ), floor=5 )
+def t_pathsyntax( ctx ):
+    """every delimiter format_path emits is one the path parser recognises"""
+    res = Result( 'T-PATHSYNTAX' )
+    src = ctx.src( CLIENT ); dsrc = ctx.src( DEVICE )
+    fp = src.get( 'format_path' )
+    consts = [ c.value for c in ast.walk( fp ) if isinstance( c, ast.Constant ) and isinstance( c.value, str ) ]
+    emitted = set()
+    for c in consts:
+        for ch in ( '@', '/', '[', ']', '-', '.', '0x' ):
+            if ch in c and not c.startswith( 'Format' ) and not c.startswith( 'Unformattable' ):
+                emitted.add( ch )
+    pp = dsrc.get( 'parse_path' ); ppe = dsrc.get( 'parse_path_elements' ); ppc = dsrc.get( 'parse_path_component' ); pi = dsrc.get( 'parse_int' )
+    parser_consts = ''.join( c.value for f in ( pp, ppe, ppc, pi ) for c in ast.walk( f ) if isinstance( c, ast.Constant ) and isinstance( c.value, str ))
+    need = { '@': ( pp, ppc ), '/': ( pp, ), '[': ( ppe, ppc ), ']': ( ppe, ppc ), '-': ( ppe, ), '.': ( pp, ) }
+    for ch in sorted( emitted ):
+        if ch == '0x':
+            # parse_int: int( x, base=0 ) accepts 0x prefixes
+            if pfind( pi, 'int( _x, base=_b )' ) or pfind( pi, 'int( _x, 0 )' ) or '0x' in parser_consts.lower():
+                res.ok( dsrc, pi, "'0x' numbers emitted by format_path are accepted by parse_int" )
+            else:
+                res.bad( dsrc, pi, 'parse_int', 'format_path emits 0x%04X class numbers; parse_int must accept them' )
+            continue
+        fns = need.get( ch, () )
+        found = any( ch in ''.join( c.value for c in ast.walk( f ) if isinstance( c, ast.Constant ) and isinstance( c.value, str )) for f in fns )
+        if found:
+            res.ok( dsrc, fns[0], 'delimiter %r emitted by format_path is recognised by %s' % ( ch, '/'.join( f.name for f in fns )))
+        else:
+            res.bad( src, fp, 'format_path emits %r' % ch, 'the path parser does not recognise this delimiter: a formatted path does not parse back' )
+    if len( emitted ) < 5:
+        raise AnalysisError( 'format_path: emitted delimiters not recognised (%s)' % sorted( emitted ))
+    return res
